@@ -499,9 +499,18 @@ def run_case(case, tier='quick'):
         case.run(H)
         # cover: a model of the completed path = concrete inputs that reach it (vacuity guard + CPython differential)
         if len(covers) < ncover and path.inputs and getattr(case, 'native_cover', True):
-            if path.solver.check() == z3.sat:
+            if path.quantified:
+                # a model of a quantified path condition is rarely found: short budget, no model = no cover for this path
+                path.solver.set('timeout', 2000)
+            r = path.solver.check()
+            if r == z3.sat:
                 m = path.solver.model()
                 covers.append(dict((n, explore.model_value(m, e)) for n, e in path.inputs.items()))
+            elif r != z3.unsat and path.quantified:
+                # fall back on the quantifier-free part: the native run re-checks the precondition itself (assume)
+                if path.ground.check() == z3.sat:
+                    m = path.ground.model()
+                    covers.append(dict((n, explore.model_value(m, e)) for n, e in path.inputs.items()))
 
     tmo = case.timeout_ms * (6 if tier == 'thorough' else 1)
     ex = explore.Explorer(case.name, runner, timeout_ms=tmo, max_paths=case.max_paths,
